@@ -1134,7 +1134,7 @@ class SklearnEKFAdapter(BaseEstimator):
                                 ),
                             ),
                             self.model_.innovations[key],
-                        )
+                        )[0, 0]
                     )
                 )
                 if np.any(self.model_.sensor_prediction_uncertainty[key] < 0.0):
